@@ -39,6 +39,9 @@ PINS = [
     'mesonbuild.backend.ninjabackend:NinjaBackend.generate_genlist_for_target',
     'mesonbuild.backend.ninjabackend:NinjaBackend.replace_paths',
     'mesonbuild.backend.backends:Backend.escape_extra_args',
+    'mesonbuild.backend.backends:Backend.replace_extra_args',
+    'mesonbuild.backend.backends:Backend.replace_outputs',
+    'mesonbuild.build:Generator.get_arglist',
     'mesonbuild.backend.backends:Backend.as_meson_exe_cmdline',
     'mesonbuild.backend.backends:Backend.get_executable_serialisation',
     'mesonbuild.backend.backends:Backend.eval_custom_target_command',
